@@ -560,8 +560,8 @@ func init() {
 		Rule:    "streams: a generated stream of JSON values (profiles: 1-200 small values; fixed-width top-level scalar records crossing every refill boundary up to 140 KiB; one string/number/array of about 4095..65537 bytes; values straddling those offsets; a 1 MiB string) x terminal scenarios (clean io.EOF, data returned together with io.EOF, end of input / injected reader error at value boundaries +-1 and random offsets) x chunk schedules (whole input, 1, 2, 7, 4095, 4096, 4097, 32768, random small/mixed/large, zero-length reads interleaved). For each run the values (RawMessage bytes, or `any` with UseNumber) must equal those of encoding/json's Decoder over a single bytes.Reader of the delivered bytes; the terminal result must be io.EOF exactly at a clean end, a non-EOF error inside a value, and the reader's own error when it failed; InputOffset must be monotone and lie in [end of value, start of next]; Buffered() followed by the unread part of the reader must be the unconsumed input starting in that same interval; no value after the terminal result. short: streams of <= 5 small values with the end of input / reader error at EVERY offset. parse-remainder: Parse must return exactly the bytes after the first value and its trailing whitespace (also when decoding the value fails with a type error). Distinct by stream hash.",
 		Trusted: []string{"encoding/json.Decoder over bytes.Reader (go1.23.5) as the single-read reference", "the generator's own record of where each value starts and ends"},
 		Subs: []core.Sub{
-			{Name: "streams", N: core.Const(800, 40000), Run: runStreams},
-			{Name: "short", N: core.Const(800, 40000), Run: runShort},
+			{Name: "streams", N: core.Const(800, 8000), Run: runStreams},
+			{Name: "short", N: core.Const(800, 12000), Run: runShort},
 			{Name: "parse-remainder", N: core.Const(3000, 100000), Run: runParseRest},
 		},
 	})
